@@ -439,6 +439,15 @@ class Session:
             m.after_op(self, line, err, valid)
         return err
 
+    def phh(self, game, compress: bool):
+        """the action lines HandHistory.from_game_state writes for the log so far (model: `phh`)"""
+        from pokerkit import HandHistory
+        self.script.append(f'phh {int(compress)}')
+        with warnings.catch_warnings():
+            warnings.simplefilter('ignore')
+            hh = HandHistory.from_game_state(game, self.state, compression_status=compress)
+        self.expect.append('H ' + '|'.join(hh.actions))
+
     def can(self, line: str):
         s = self.state
         self.script.append('can ' + line)
